@@ -7,7 +7,7 @@ import (
 
 var c10Prim = ref.Opts{Kinds: ref.KPrim, MaxStr: 2, IntSafe: true}
 
-//verif:harness props=C10 tier=quick split=7 bounds="two values of any primitive kind (nil,int64,uint64,float64,string<=2 bytes,bool,time); ints within 2^53 when mixed with floats; full sign agreement with the reference order incl. cross-rank"
+//verif:harness props=C10 tier=quick bounds="two values of any primitive kind (nil,int64,uint64,float64,string<=2 bytes,bool,time); ints within 2^53 when mixed with floats; full sign agreement with the reference order incl. cross-rank"
 func H_C10_prim_vs_ref() {
 	a := ref.Value("a", c10Prim)
 	b := ref.Value("b", c10Prim)
@@ -26,7 +26,7 @@ func H_C10_strings() {
 var c10Cont = ref.Opts{Kinds: ref.KArray | ref.KObject | ref.KNil | ref.KFloat | ref.KString, ElemKinds: ref.KNil | ref.KFloat | ref.KString | ref.KBool | ref.KInt,
 	MaxStr: 1, MaxElems: 2, SmallInts: true}
 
-//verif:harness props=C10 tier=thorough split=5 bounds="arrays and objects (keys from {a,ab,b}) with <=2 elements of kinds nil/float64/string<=1/bool/int64(boundary set), plus nil/float/string at top level: sign agreement with the reference order"
+//verif:harness props=C10 tier=thorough bounds="arrays and objects (keys from {a,ab,b}) with <=2 elements of kinds nil/float64/string<=1/bool/int64(boundary set), plus nil/float/string at top level: sign agreement with the reference order"
 func H_C10_containers_vs_ref() {
 	a := ref.Value("a", c10Cont)
 	b := ref.Value("b", c10Cont)
@@ -47,7 +47,7 @@ func H_C10_containers1_vs_ref() {
 
 var c10Law = ref.Opts{Kinds: ref.KNil | ref.KInt | ref.KUint | ref.KFloat | ref.KString | ref.KBool | ref.KTime, MaxStr: 1, IntSafe: true}
 
-//verif:harness props=C10 tier=quick split=7 bounds="preorder laws on pairs of primitives (ints within 2^53): reflexive, sign-antisymmetric"
+//verif:harness props=C10 tier=quick bounds="preorder laws on pairs of primitives (ints within 2^53): reflexive, sign-antisymmetric"
 func H_C10_laws2() {
 	a := ref.Value("a", c10Law)
 	b := ref.Value("b", c10Law)
@@ -58,7 +58,7 @@ func H_C10_laws2() {
 
 var c10Law3 = ref.Opts{Kinds: ref.KNil | ref.KInt | ref.KUint | ref.KFloat | ref.KString | ref.KBool, MaxStr: 1, IntSafe: true}
 
-//verif:harness props=C10 tier=thorough split=6 bounds="transitivity on triples of primitives nil/int64/uint64/float64/string<=1/bool (ints within 2^53)"
+//verif:harness props=C10 tier=thorough bounds="transitivity on triples of primitives nil/int64/uint64/float64/string<=1/bool (ints within 2^53)"
 func H_C10_trans3() {
 	a := ref.Value("a", c10Law3)
 	b := ref.Value("b", c10Law3)
